@@ -98,6 +98,10 @@ type (
 
 		// kv map is used for pipeline to share messages among filters during whole connection
 		kvMap sync.Map
+
+		// takenOver is 1 if a new connection with the same client id has
+		// replaced this one.
+		takenOver int32
 	}
 )
 
@@ -290,6 +294,17 @@ func (c *Client) disconnected() bool {
 }
 
 func (c *Client) closeAndDelSession() {
+	// the session, the topics and the stored session are all kept by client
+	// id, if a new connection has taken over the id, they belong to that
+	// connection now and this one must leave them alone. The broker lock
+	// orders this cleanup against the take over in Broker.handleConn.
+	c.broker.Lock()
+	if atomic.LoadInt32(&c.takenOver) == 1 {
+		c.broker.Unlock()
+		c.close()
+		return
+	}
+
 	c.broker.sessMgr.delLocal(c.info.cid)
 	if c.session.cleanSession() {
 		c.broker.sessMgr.delDB(c.info.cid)
@@ -297,6 +312,7 @@ func (c *Client) closeAndDelSession() {
 
 	topics, _, _ := c.session.allSubscribes()
 	c.broker.topicMgr.unsubscribe(topics, c.info.cid)
+	c.broker.Unlock()
 
 	c.close()
 }
